@@ -4,6 +4,7 @@ import (
 	"github.com/LemoFoundationLtd/lemochain-core/chain/deputynode"
 	"github.com/LemoFoundationLtd/lemochain-core/common"
 	"github.com/LemoFoundationLtd/lemochain-core/common/crypto"
+	"sync"
 )
 
 // cache confirm to save CPU. This confirm may not be used at last
@@ -12,8 +13,14 @@ var sigCache struct {
 	Sig  []byte
 }
 
+// sigCacheLock guards sigCache. The miner, the block inserter and the goroutine which confirms the stable blocks sign at the same time
+var sigCacheLock sync.Mutex
+
 // SignBlock sign a block hash by node key
 func SignBlock(blockHash common.Hash) ([]byte, error) {
+	sigCacheLock.Lock()
+	defer sigCacheLock.Unlock()
+
 	if sigCache.Hash == blockHash {
 		return sigCache.Sig, nil
 	}
